@@ -156,39 +156,42 @@ Definition vinit_mems (m : vmodule) (given : Z -> Z -> Z) : Z -> Z -> Z :=
     | None => given mm a
     end.
 
-(* ---- executable settling (used by the search; acyclic assigns converge) ---- *)
-
-Definition assign_pass (m : vmodule) (st : vstate) (env : Z -> Z) : Z -> Z :=
-  let env1 := fold_left (fun ev a => upd ev (fst a) (vassign (dwidth m) ev (fst a) (snd a)))
-                        (m_assigns m) env in
-  fold_left (fun ev r => let '(x, (mm, a)) := r in
-                         upd ev x (vmems st mm (ev a) mod 2 ^ dwidth m x))
-            (m_memrds m) env1.
-
-Fixpoint iter_pass (m : vmodule) (st : vstate) (fuel : nat) (env : Z -> Z) : Z -> Z :=
-  match fuel with
-  | O => env
-  | S k => iter_pass m st k (assign_pass m st env)
-  end.
+(* ---- executable settling (used by the search) --------------------------------
+   The harness supplies an evaluation order for the left-hand sides (a HINT,
+   e.g. a dependency order); the candidate valuation it produces is accepted
+   only if every equation of [settled] is then CHECKED to hold. *)
 
 Definition base_env (m : vmodule) (st : vstate) (ins : Z -> Z) : Z -> Z :=
   fun x => if declared_in (m_inputs m) x then ins x
            else if declared_in (m_regs m) x then vregs st x else 0.
 
-(* settle: n+1 passes over n equations; report whether one more pass changes
-   any declared identifier (false = a combinational loop or a double driver) *)
-Definition settle (m : vmodule) (st : vstate) (ins : Z -> Z) : (Z -> Z) * bool :=
-  let n := (length (m_assigns m) + length (m_memrds m))%nat in
-  let env := iter_pass m st (S n) (base_env m st ins) in
-  let env' := assign_pass m st env in
-  (env, forallb (fun d => env (fst d) =? env' (fst d)) (decls m)).
+Definition eval_item (m : vmodule) (st : vstate) (env : Z -> Z) (x : Z) : Z -> Z :=
+  match find (fun a => fst a =? x) (m_assigns m) with
+  | Some (_, e) => upd env x (vassign (dwidth m) env x e)
+  | None =>
+      match find (fun r => fst r =? x) (m_memrds m) with
+      | Some (_, (mm, a)) => upd env x (vmems st mm (env a) mod 2 ^ dwidth m x)
+      | None => env
+      end
+  end.
 
-Fixpoint vrun (m : vmodule) (st : vstate) (stim : list ((Z -> Z) * bool))
+Definition settledb (m : vmodule) (st : vstate) (ins : Z -> Z) (env : Z -> Z) : bool :=
+  forallb (fun d => env (fst d) =? ins (fst d)) (m_inputs m)
+  && forallb (fun d => env (fst d) =? vregs st (fst d)) (m_regs m)
+  && forallb (fun a => env (fst a) =? vassign (dwidth m) env (fst a) (snd a)) (m_assigns m)
+  && forallb (fun r => let '(x, (mm, a)) := r in
+                       env x =? vmems st mm (env a) mod 2 ^ dwidth m x) (m_memrds m).
+
+Definition settle (m : vmodule) (order : list Z) (st : vstate) (ins : Z -> Z) : (Z -> Z) * bool :=
+  let env := fold_left (eval_item m st) order (base_env m st ins) in
+  (env, settledb m st ins env).
+
+Fixpoint vrun (m : vmodule) (order : list Z) (st : vstate) (stim : list ((Z -> Z) * bool))
   : list ((Z -> Z) * bool) * vstate :=
   match stim with
   | [] => ([], st)
   | (ins, rst) :: rest =>
-      let '(env, ok) := settle m st ins in
-      let '(tr, st') := vrun m (vedge m rst env st) rest in
+      let '(env, ok) := settle m order st ins in
+      let '(tr, st') := vrun m order (vedge m rst env st) rest in
       ((env, ok) :: tr, st')
   end.
